@@ -49,16 +49,17 @@ type genum struct {
 }
 
 type sgen struct {
-	r     *rand.Rand
-	f     *AFile
-	roots []*gnode
-	all   []*gnode
-	enums []*genum
-	fef   gEF
-	seq   int
+	r        *rand.Rand
+	f        *AFile
+	roots    []*gnode
+	all      []*gnode
+	enums    []*genum
+	fef      gEF
+	seq      int
+	relStyle bool
 }
 
-func (g *sgen) p(n, d int) bool { return g.r.IntN(d) < n }
+func (g *sgen) p(n, d int) bool          { return g.r.IntN(d) < n }
 func (g *sgen) pick(ss ...string) string { return ss[g.r.IntN(len(ss))] }
 
 func join(a, b string) string {
@@ -96,10 +97,16 @@ func scalarDefault(r *rand.Rand, k int) string {
 }
 
 func (g *sgen) refTo(from string, full string) string {
-	// relative form: strip the longest common scope prefix when that is unambiguous (names are globally unique here)
-	if g.p(1, 3) {
-		k := strings.LastIndexByte(full, '.')
-		return full[k+1:]
+	// some files use relative references throughout (package prefix stripped: resolvable from every scope of the file,
+	// names being unique), a few mix in innermost names that only resolve from a scope enclosing the target
+	switch {
+	case g.relStyle && g.p(1, 12):
+		return full[strings.LastIndexByte(full, '.')+1:]
+	case g.relStyle && g.p(1, 2):
+		if g.f.Pkg != "" {
+			return strings.TrimPrefix(full, g.f.Pkg+".")
+		}
+		return full
 	}
 	return "." + full
 }
@@ -109,6 +116,7 @@ func GenFile(r *rand.Rand) *AFile {
 	g := &sgen{r: r}
 	f := &AFile{Path: "gen.proto", Legacy: flags.ProtoLegacy, Deps: []ADep{}, OptDeps: []string{}, Imps: []AImp{}, Msgs: []AMsg{}, Enums: []AEnum{}, Exts: []AField{}, Svcs: []ASvc{}}
 	g.f = f
+	g.relStyle = r.IntN(3) == 0
 	f.Pkg = g.pick("", "g", "g.h", "g")
 	switch r.IntN(4) {
 	case 0:
